@@ -664,8 +664,16 @@ class Interp:
             if isinstance(v, Node):
                 c = concrete(v)
                 if c is None:
-                    return X.add(X.ONE, X.neg(v))     # 1 - mask
+                    # `not <symbolic condition>`: decide the operand exactly as an `if <operand>:` would (hooks, sign domain, path forks) and negate;
+                    # only an operand nothing can decide is kept as the mask 1 - v
+                    probe = ast.copy_location(ast.If(test=e.operand, body=[], orelse=[]), e)
+                    try:
+                        return not self.truth(v, probe, fr)
+                    except AnalysisError:
+                        return X.add(X.ONE, X.neg(v))     # 1 - mask
                 return not c
+            if isinstance(v, Opaque):
+                return not self.truth(v, ast.copy_location(ast.If(test=e.operand, body=[], orelse=[]), e), fr)
             return not self.truth(v, e, fr)
         raise AnalysisError('unary op')
 
